@@ -840,10 +840,34 @@ def alias1(ctx: Ctx) -> None:
     mod = ctx.P.mod("_lowlevel")
     fn = mod.fn("_contexts_active_by_trickery")
     n_reads = 0
+    # the tables: every local bound (directly or by tuple unpacking) from analyze_with_blocks or from a package function
+    # that calls it (a memoising front end, ...)
+    def _is_table_source(c: ast.AST) -> bool:
+        if not isinstance(c, ast.Call):
+            return False
+        cal = ctx.P.resolve_call(mod, c)
+        if cal.kind != "pkg":
+            return False
+        q = cal.name.split(".")[-1]
+        if q == "analyze_with_blocks":
+            return True
+        if mod.has(q):
+            return any(isinstance(x, ast.Call) and ctx.P.resolve_call(mod, x).is_pkg("_lowlevel", "analyze_with_blocks") for x in ast.walk(mod.fn(q)))
+        return False
+    tables: Set[str] = set()
+    for a in ast.walk(fn):
+        if isinstance(a, ast.Assign) and len(a.targets) == 1 and _is_table_source(a.value):
+            tg = a.targets[0]
+            if isinstance(tg, ast.Name):
+                tables.add(tg.id)
+            elif isinstance(tg, ast.Tuple):
+                tables |= {e.id for e in tg.elts if isinstance(e, ast.Name)}
+    if not tables:
+        raise AnalysisError("ALIAS-1: _contexts_active_by_trickery no longer binds the result of analyze_with_blocks")
     # ALIAS-1: the per-code-object partial Contexts are never handed out or mutated: every read of
-    # with_block_info[...] is the first argument of replace(...)
+    # <table>[...] is the first argument of replace(...)
     for n in ast.walk(fn):
-        if isinstance(n, ast.Subscript) and norm(n.value) == "with_block_info" and isinstance(n.ctx, ast.Load):
+        if isinstance(n, ast.Subscript) and norm(n.value) in tables and isinstance(n.ctx, ast.Load):
             n_reads += 1
             par = mod.parent_of(n)
             if isinstance(par, ast.Call) and norm(par.func) in ("replace", "dataclasses.replace") and par.args and par.args[0] is n:
